@@ -1370,6 +1370,7 @@ class Emit:
             if rhs[0] in ("if", "iflet", "match", "block") and not self.pure_expr(rhs):
                 raise Unsupported("assignment from a statement-bearing expression")
             r = self.ex(rhs)
+            if lhs[0] == "path" and len(lhs[1]) == 1 and lhs[1][0] in self.unit.get("skip_assign_to", []): return []
             if lhs[0] == "path" and len(lhs[1]) == 1:
                 x = lname(lhs[1][0])
                 if op == "=": return [ind + f"{x} := {r}"]
@@ -1599,6 +1600,8 @@ def find_fragment_in_tokens(it, sel):
     """fallback for a function the parser cannot read as a whole: find the selected `let` / `if` by scanning its tokens and
     parse only that expression"""
     kind, name = sel.split(":")
+    nth = None
+    if "#" in name: name, nth = name.split("#")[0], int(name.split("#")[1])
     toks = list(it["toks"]) + [("eof", "", 0)]
     found = []
     for i, t in enumerate(toks):
@@ -1619,11 +1622,17 @@ def find_fragment_in_tokens(it, sel):
                 if "@" in name and not mentions(itx, name.split("@")[1]): continue
                 found.append(sub.block())
             except Unsupported: continue
+        if kind == "iflet" and t[:2] == ("id", "if") and toks[i + 1][:2] == ("id", "let"):
+            sub = P(toks, it["fname"]); sub.i = i + 1
+            try: c = sub.if_rest()
+            except Unsupported: continue
+            if c[0] == "iflet" and mentions(c[2], name): found.append(c)
         if kind in ("if", "iflast") and t[:2] == ("id", "if") and toks[i + 1][:2] != ("id", "let"):
             sub = P(toks, it["fname"]); sub.i = i + 1
             try: c = sub.expr(nostruct=True)
             except Unsupported: continue
             if mentions(c, name): found.append(c)
+    if nth is not None: return found[nth - 1] if len(found) >= nth else None
     if kind == "let" or (kind == "forbody" and "@" not in name): return found[0] if len(found) == 1 else None
     if kind == "iflast": return found[-1] if found else None
     return found[0] if found else None
@@ -1632,17 +1641,21 @@ def find_fragment(body, sel):
     """`let:NAME` = the initialiser of the unique `let NAME = …;` in the function;
        `if:NAME`  = the condition of the first `if` (source order) whose condition mentions NAME."""
     kind, name = sel.split(":")
+    nth = None
+    if "#" in name: name, nth = name.split("#")[0], int(name.split("#")[1])
     found = []
     def walk(e):
         if isinstance(e, tuple):
             if kind == "let" and e[:1] == ("let",) and len(e) == 6 and e[1] == ("bind", name) and e[4] is not None: found.append(e[4])
             if kind in ("if", "iflast") and e[:1] == ("if",) and len(e) == 4 and mentions(e[1], name): found.append(e[1])
+            if kind == "iflet" and e[:1] == ("iflet",) and len(e) == 5 and mentions(e[2], name): found.append(e)
             if kind == "forbody" and e[:1] == ("for",) and len(e) == 4 and e[1] == ("bind", name.split("@")[0]) \
                and ("@" not in name or mentions(e[2], name.split("@")[1])): found.append(e[3])
             for x in e: walk(x)
         elif isinstance(e, list):
             for x in e: walk(x)
     walk(body)
+    if nth is not None: return found[nth - 1] if len(found) >= nth else None
     if kind == "let" or (kind == "forbody" and "@" not in name): return found[0] if len(found) == 1 else None
     if kind == "iflast": return found[-1] if found else None
     return found[0] if found else None
@@ -1683,7 +1696,7 @@ def translate_unit(unit, repo):
             if key not in its: raise Unsupported(f"{f}: item `{key}` not found")
             e = find_fragment_in_tokens(its[key], sel) if its[key]["kind"] == "error" else find_fragment(its[key]["body"], sel)
             if e is None: raise Unsupported(f"{f}: `{key}`: fragment `{sel}` not found (or not unique)")
-            decls.append(("fragfx", key + " @ " + sel, ln, {"expr": e, "params": params, "rty": rty, "owner": its[key]["owner"], "unit_body": sel.startswith("forbody:")}, f))
+            decls.append(("fragfx", key + " @ " + sel, ln, {"expr": e, "params": params, "rty": rty, "owner": its[key]["owner"], "unit_body": sel.startswith("forbody:") or sel.startswith("iflet:")}, f))
             continue
         if ent[0] == "frag":
             # ("frag", file, fn, selector, lean name, [(param, lean type)], lean result type)
